@@ -98,11 +98,16 @@ MIN_COUNTS = {
 
 # --------------------------------------------------------------------------------------------------
 # C07-11  locals that are assigned on some paths only, confirmed by reading to be assigned on every *feasible* path to their uses.
-#   (function fid, variable, reason)            -- anything not listed here is reported
+#   (function fid, variable, reason[, premise])  -- anything not listed here is reported.  Where the reason is a condition on the *read*, it is given as a
+#   premise that every read of the variable must satisfy (dominating guards): ("isnot", name, None) = `name is not None`; ("param", key, True) = params(key) is true.
+#   A new read elsewhere (a log line, say) is then reported even though the variable is listed.
 MAYBE_UNDEFINED_OK = [
-    ("solver.solve_main", "m", "used only when default_growing_method_set_by_user is not None; only the first call of a solve passes that, and there r0_avg_old is None so m = len(r0) was assigned"),
-    ("solver.solve_main", "restart_auto_detect_delta", "assigned and used under the same conjunction params('restarts.use_restarts') and params('restarts.auto_detect'); parameters cannot change during a run"),
-    ("solver.solve_main", "restart_auto_detect_chgJ", "same as restart_auto_detect_delta"),
+    ("solver.solve_main", "m", "used only when default_growing_method_set_by_user is not None; only the first call of a solve passes that, and there r0_avg_old is None so m = len(r0) was assigned",
+     [("isnot", "default_growing_method_set_by_user", None)]),
+    ("solver.solve_main", "restart_auto_detect_delta", "assigned and used under the same conjunction params('restarts.use_restarts') and params('restarts.auto_detect'); parameters cannot change during a run",
+     [("param", "restarts.use_restarts", True), ("param", "restarts.auto_detect", True)]),
+    ("solver.solve_main", "restart_auto_detect_chgJ", "same as restart_auto_detect_delta",
+     [("param", "restarts.use_restarts", True), ("param", "restarts.auto_detect", True)]),
     ("trust_region.ctrsbox_sfista", "gnew", "assigned in every iteration of the S-FISTA loop, which runs MAX_LOOP_ITERS >= 1 times: func_tol.max_iters >= 1 by the parameter table (the rule re-checks that lower bound) and the ceil(...) term is positive"),
     ("trust_region.trsbox", "gredsq", "first CG iteration has beta == 0.0 (initialised before the loop), which assigns gredsq"),
     ("trust_region.trsbox", "gredsq0", "first CG iteration has iterc == 0 (initialised before the loop), which assigns gredsq0"),
